@@ -3,6 +3,7 @@ import LyModel.XPath.Ast
 import LyModel.XPath.Str
 import LyModel.Val.Ident
 import LyModel.XsdRe.Parse
+import LyModel.XPath.YangInst
 /-!
 # Schema facts and the tree-independent parts of the RFC 7950 §10 XPath functions  (component `XpCore`, property C08)
 
@@ -17,6 +18,9 @@ need from the schema.  `Facts` is that part of the schema, written by the python
 * `#type <schema-path> <descriptor>`                  value type of a terminal that is neither string, boolean nor enumeration:
                                                       the descriptors of `Val.Drv.parseTy` (`i32`, `u8`, `d2`, `bits:<hex>=<pos>,…`)
                                                       or `idref:<mod>:<name>,…` (the bases)
+                                                      or `union:<member>|<member>…` in the order of the `type` statements, member = one of
+                                                      the above, `enum:<hex name>,…` or `str`
+* `#inst <schema-path>`                               `type instance-identifier` (`deref()`, `YangInst.lean`)
 
 `<schema-path>` = `/mod:name/mod:name…` of the data node without predicates (choice / case are not part of it).
 
@@ -27,10 +31,19 @@ and derivative matcher `XsdRe.parseXsd` / `Regex.matches` (property C18).   Core
 namespace LyModel.XPath
 open LyModel
 
+/-- member type of a union, as far as the comparison canonisation needs it -/
+inductive UMem
+  | val (t : Val.Ty)
+  | idref (bases : List Val.Ident.Ident)
+  | enm (names : List Bytes)
+  | str
+
 /-- value type of a terminal, as far as the comparison canonisation needs it -/
 inductive NodeTy
   | val (t : Val.Ty)
   | idref (bases : List Val.Ident.Ident)
+  /-- `type union`: the member types in the order of the `type` statements -/
+  | union (ms : List UMem)
 
 structure Facts where
   mods : List Bytes := []
@@ -39,6 +52,8 @@ structure Facts where
   /-- leafref path: absolute?, steps (axis, node test) — paths with predicates are not represented -/
   lrefs : List (Bytes × Bool × List (Axis × Test)) := []
   types : List (Bytes × NodeTy) := []
+  /-- schema paths of the terminals of type `instance-identifier` (`#inst <schema-path>`) -/
+  insts : List Bytes := []
 
 namespace Doc
 
@@ -132,10 +147,35 @@ def reMatch (s p : Bytes) : Option Bool :=
     | none => none
     | some cs => some (pat.toRegex.matches cs)
 
+/-- one member type applied to the string: `some` canonical form when the member's store callback accepts it (LYD_HINT_DATA, JSON
+prefixes, default module = module of the node); enumeration and string members have no canonical form other than the string itself -/
+def canonMem (f : Facts) (nodeMod : Bytes) (m : UMem) (s : Bytes) : Option Bytes :=
+  match m with
+  | .val t =>
+    match Val.store t Generated.LYD_HINT_DATA s with
+    | .ok v => some (Val.canon t v)
+    | .error _ => none
+  | .idref bases =>
+    match Val.Ident.storeId f.idctx bases { table := f.mods.map fun m => (m, m), dflt := some nodeMod } Generated.LYD_HINT_DATA s with
+    | .ok i => some (Val.Ident.canonId i)
+    | .error _ => none
+  | .enm names => if names.contains s then some s else none
+  | .str => some s
+
+/-- `lyplg_type_store_union` + canonical value of the result: the members are tried in order, the first that accepts the string wins;
+the string stays as it is when no member accepts it -/
+def canonUnion (f : Facts) (nodeMod : Bytes) : List UMem → Bytes → Bytes
+  | [], s => s
+  | m :: ms, s =>
+    match canonMem f nodeMod m s with
+    | some c => c
+    | none => canonUnion f nodeMod ms s
+
 /-- `set_comp_canonize` for a node of type `ty`: the string is stored through the type plugin (hints of data values, JSON prefixes,
 default module = module of the node); on success it is replaced by the canonical value, otherwise it stays as it is -/
 def canonize (f : Facts) (nodeMod : Bytes) (ty : NodeTy) (s : Bytes) : Bytes :=
   match ty with
+  | .union ms => canonUnion f nodeMod ms s
   | .val t =>
     match Val.store t Generated.LYD_HINT_DATA s with
     | .ok v => Val.canon t v
